@@ -39,20 +39,23 @@ func vRefGlob(pattern, s string) (matched, bad bool) {
 // construction. (Concrete enumeration inside the engine: it complements C12.origin, where url.Parse is uninterpreted.)
 func verifC12_grammar() {
 	// (the request Host is compared literally: glob metacharacters in it mean nothing, and an IPv6 literal is just a host)
-	reqHosts := []string{"example.com", "Example.COM", "example.com:8080", "*", "[::1]:8080", "app.example.com", "example.com:*", "e?il.com"}
+	// (sk.example: its letters are the ones Unicode case folding maps non-ASCII characters onto - U+017F LONG S folds to s,
+	// U+212A KELVIN SIGN to k. Host names are compared ASCII-case-insensitively: such a host is a different host.)
+	reqHosts := []string{"example.com", "Example.COM", "example.com:8080", "*", "[::1]:8080", "sk.example", "app.example.com", "example.com:*", "e?il.com"}
 	schemes := []string{"https://", "capacitor://", "http://", "HTTPS://", "wss://", "chrome-extension://"} // (any scheme: the comparison is about the host)
 	userinfos := []string{"", "user@", "example.com@", "example.com:pw@"}
-	ohosts := []string{"example.com", "EXAMPLE.com", "evil.com", "example.com.evil.com", "evilexample.com", "app.example.com", "[::1]"}
+	ohosts := []string{"example.com", "EXAMPLE.com", "evil.com", "example.com.evil.com", "evilexample.com", "app.example.com", "[::1]", "SK.example", "\u017fk.example", "s\u212a.example", "app.s\u212a.example"}
 	ports := []string{"", ":8080", ":443"}
 	tails := []string{"", "/example.com", "?example.com", "#example.com", "?.example.com", "/?x=.example.com"}
-	patternSets := [][]string{nil, {"*.example.com"}, {"example.com"}, {"https://*.example.com"}, {"evil.*"}, {"[bad", "evil.com"}, {"EXAMPLE.com:*"}}
+	patternSets := [][]string{nil, {"*.example.com"}, {"example.com"}, {"https://*.example.com"}, {"evil.*"}, {"[bad", "evil.com"}, {"EXAMPLE.com:*"}, {"*.sk.example"}}
 
 	if vParam("small", 0) == 1 {
 		// quick tier: a sub-grammar that still contains every trick once
-		reqHosts = reqHosts[:5]
+		reqHosts = reqHosts[:6]
 		schemes = schemes[:2]
 		userinfos = []string{"", "example.com@"}
-		ohosts = []string{"example.com", "evil.com", "example.com.evil.com", "app.example.com", "[::1]"}
+		ohosts = []string{"example.com", "evil.com", "example.com.evil.com", "app.example.com", "[::1]", "\u017fk.example", "app.s\u212a.example"}
+		patternSets = append(patternSets[:4:4], patternSets[5:]...)
 		ports = ports[:2]
 		tails = []string{"", "?.example.com", "/example.com"}
 	}
@@ -100,11 +103,11 @@ func verifC12_grammar() {
 
 	want := skip || kind == 1
 	if !want {
-		if kind == 0 && strings.EqualFold(reqHost, trueHost) {
+		if kind == 0 && vAsciiEqualFold(reqHost, trueHost) {
 			want = true
 		} else {
 			for _, p := range patterns {
-				m, bad := vRefGlob(strings.ToLower(p), strings.ToLower(trueHost))
+				m, bad := vRefGlob(vAsciiLower(p), vAsciiLower(trueHost))
 				if bad {
 					break
 				}
